@@ -27,7 +27,7 @@ RULE = ("every constructor x parameter set: all patterns of length <= 4 over alp
         "included) x every flag combination for from_prefix/from_suffix/from_substring/from_subsequence; of_length lo 0-4 x "
         "hi None/0-4 x every counted-symbol subset; count_mod k 1-4 x every remainder subset x every counted subset; "
         "nth_from_start/nth_from_end n 1-3 x every symbol; universal/empty; random pattern sets (1-4 patterns, length <= 3, "
-        "every fourth set up to length 6, nested/overlapping) x flags for from_substrings; random finite languages (<= 6 words) x as_partial; refusals "
+        "every fourth set up to length 6, nested/overlapping) x flags for from_substrings; random finite languages (<= 6 words) x as_partial, languages with a word outside the alphabet (refused); refusals "
         "(k = 0, n = 0, symbol outside the alphabet). distinct = distinct (constructor, alphabet, parameters); "
         "non-trivial = the result has >= 2 states and its language is neither empty nor universal up to length K")
 
@@ -191,6 +191,9 @@ class Case:
         if kind == "of_length":
             degenerate = (k["hi"] is not None and k["hi"] < k["lo"]) or (k["cs"] is not None and not k["cs"])
             return "outside" if degenerate else "promised"
+        if kind == "from_finite_language" and not self.sigma and k["lang"] and not k["as_partial"]:
+            # side condition of C15_from_finite_language_minimal: over the empty alphabet _to_complete adds an unreachable trap
+            return "outside"
         return "promised"
 
     def family(self):
@@ -543,7 +546,7 @@ class Runner:
         if bad is not None:
             problems.append(("language", f"table walk on {bad!r} gives {not c.pred(bad)}, accepts_input = {d.accepts_input(bad)}, "
                                          f"the specified predicate gives {c.pred(bad)}"))
-        for _ in range(6):
+        for _ in range(6 if c.sigma else 0):
             w = "".join(ctx.rng.choice(c.sigma) for _ in range(ctx.rng.randint(0, 9)))
             if d.accepts_input(w) != c.pred(w):
                 problems.append(("language", f"accepts_input({w!r}) = {d.accepts_input(w)}, the specified predicate gives {c.pred(w)}"))
@@ -780,8 +783,8 @@ def run(ctx):
         for c in (True, False):
             for m in ((True,) if foreign_open else (True, False)):
                 cases.append(Case("from_substrings", sigma, pats=frozenset(pats), contains=c, must_be_suffix=m))
-    # from_finite_language
-    for sigma in ("a", "ab"):
+    # from_finite_language (the empty alphabet included: the only languages are {} and {""})
+    for sigma in ("", "a", "ab"):
         for ap in (True, False):
             cases.append(Case("from_finite_language", sigma, lang=frozenset(), as_partial=ap))
             cases.append(Case("from_finite_language", sigma, lang=frozenset({""}), as_partial=ap))
